@@ -28,7 +28,11 @@ Definition srv_eqb (a b : server) : bool :=
   end.
 
 (* one observed CLI invocation: [rs_http] scheme of the URL, [rs_obs] what was seen *)
-Record rstep := { rs_http : bool; rs_obs : obs }.
+Record rstep := {
+  rs_http : bool;
+  rs_before : list (server * inv);   (* the earlier invocations of the same history (inputs only) *)
+  rs_obs : obs
+}.
 
 (* correspondence: the model, started from the OBSERVED cache state before the
    step, predicts the observed exit status, probes and cache state after it *)
@@ -41,6 +45,12 @@ Definition rstep_only_approved (r : rstep) : bool := mon_only_approved tdigest (
 Definition rstep_unapproved (r : rstep) : bool := mon_unapproved tdigest (rs_http r) (rs_obs r).
 Definition rstep_keeps (r : rstep) : bool := mon_keeps_running tdigest (rs_http r) (rs_obs r).
 Definition rstep_http (r : rstep) : bool := mon_http_refused (rs_http r) (rs_obs r).
+Definition rstep_guarded (r : rstep) : bool := mon_content_guarded tdigest (rs_obs r).
+
+(* what ran against what the user approved so far in this history, this invocation included *)
+Definition rstep_ran_approved (r : rstep) : bool :=
+  let o := rs_obs r in
+  mon_ever_approved tdigest (o, approvals_after tdigest [] (rs_before r ++ [(o_srv o, o_inv o)])).
 
 Fixpoint number {A} (i : nat) (l : list A) : list (nat * A) :=
   match l with [] => [] | x :: r => (i, x) :: number (S i) r end.
